@@ -382,6 +382,40 @@ class OpRunner(object):
         obs = {'exit': runner.exit_class(res), 'lines': lines, 'diag': diag, 'unparsed': bad}
         return obs, res
 
+    def listdirs(self, lab, state, shim_kw=None):
+        """trash-list --trash-dirs and trash-list --volumes"""
+        w = self.w
+        res = self._run('trash-list', ['--trash-dirs'], self.neutral_cwd(), shim_kw=shim_kw)
+        by_path = {}
+        for t in world.tdir_ids():
+            by_path.setdefault(os.fsencode(w.tpath(t)), t)
+        found, notsticky, symlink, bad = [], [], [], []
+        for line in res['stdout'].split(b'\n'):
+            if not line:
+                continue
+            kind, path = 'found', line
+            for pre, k in ((b'parent_not_sticky: ', 'notsticky'), (b'parent_is_symlink: ', 'symlink')):
+                if line.startswith(pre):
+                    kind, path = k, line[len(pre):]
+            t = by_path.get(path.rstrip(b'/'))
+            if t is None:
+                bad.append(line[:200])
+            else:
+                {'found': found, 'notsticky': notsticky, 'symlink': symlink}[kind].append(t)
+        res2 = self._run('trash-list', ['--volumes'], self.neutral_cwd(), shim_kw=shim_kw)
+        vols = []
+        by_vol = {os.fsencode(w.rpath(r)): r for r in world.REGIONS}
+        for line in res2['stdout'].split(b'\n'):
+            if line:
+                r_ = by_vol.get(line.rstrip(b'/') or b'/')
+                if r_ is None:
+                    bad.append(b'volume ' + line[:200])
+                else:
+                    vols.append(r_)
+        ex = runner.exit_class(res) if runner.exit_class(res) != 'ok' else runner.exit_class(res2)
+        obs = {'exit': ex, 'found': found, 'notsticky': notsticky, 'symlink': symlink, 'volumes': vols, 'unparsed': bad}
+        return obs, res
+
     # ---- restore ------------------------------------------------------------------------------
     def restore(self, lab, state, shim_kw=None):
         w = self.w
@@ -599,6 +633,8 @@ class OpRunner(object):
             return self.list(lab, state, **kw)
         if c == 'restore':
             return self.restore(lab, state, **kw)
+        if c == 'listdirs':
+            return self.listdirs(lab, state, **kw)
         if c == 'empty':
             return self.empty(lab, state, slots if slots is not None else self.w.slots, **kw)
         if c == 'rm':
